@@ -240,6 +240,32 @@ def generate(repo):
     kinds.append(('Frame.sort_values', _kind_expr(_kw(fsv_argsort[0], 'kind'), default_expr(fsv))))
     kinds.append(('Series.sort_values', _kind_expr(_kw(ssv_argsort[0], 'kind'), default_expr(ssv))))
 
+    # grow-only hierarchical index: refresh condition of values_at_depth, flag updates of append/extend
+    vad = _func(ih, 'IndexHierarchy.values_at_depth')
+    first = next((n for n in vad.body if not (isinstance(n, ast.Expr) and isinstance(n.value, ast.Constant))), None)
+    if not (isinstance(first, ast.If) and not first.orelse and [ast.unparse(x) for x in first.body] == ['self._update_array_cache()']):
+        raise ValueError('IndexHierarchy.values_at_depth: no leading `if ...: self._update_array_cache()`')
+    cond = ast.unparse(first.test)
+    if cond == 'self._recache':
+        vad_refresh = 'RefreshOnRecache'
+    elif cond in ('self._blocks is None', 'not self._blocks'):
+        vad_refresh = 'RefreshOnMissingTable'
+    else:
+        raise ValueError(f'IndexHierarchy.values_at_depth: unexpected refresh condition {cond!r}')
+    if not any(ast.unparse(x.func) == 'self._blocks._extract_array' for x in ast.walk(vad) if isinstance(x, ast.Call)):
+        raise ValueError('IndexHierarchy.values_at_depth does not read self._blocks')
+    uac = _func(ih, 'IndexHierarchy._update_array_cache')
+    if [ast.unparse(x) for x in uac.body] != ['self._blocks = self._levels.to_type_blocks()', 'self._recache = False']:
+        raise ValueError('IndexHierarchy._update_array_cache: unexpected body')
+    def sets_recache(qual, grow):
+        fn = _func(ih, qual)
+        body = [ast.unparse(x) for x in fn.body if not (isinstance(x, ast.Expr) and isinstance(x.value, ast.Constant))]
+        if not body or not body[0].startswith(grow):
+            raise ValueError(f'{qual}: unexpected body {body}')
+        return 'true' if 'self._recache = True' in body else 'false'
+    app_flag = sets_recache('IndexHierarchyGO.append', 'self._levels.append(')
+    ext_flag = sets_recache('IndexHierarchyGO.extend', 'self._levels.extend(')
+
     text = [
         '(* GENERATED by tools/sfv/props/c12.py generate() from static_frame/core/{container_util,frame,series,index,index_hierarchy}.py',
         '   -- do not edit; regenerated on every run. *)',
@@ -250,6 +276,9 @@ def generate(repo):
         '   `if not ascending: order = order[::-1]` statements, presence of the key-length check in Series.sort_values *)',
         'Definition code_params : sort_params :=',
         f'  mk_sort_params {sifo_arr} {sifo_idx} {lit.z(thr)} {sifo_desc} {fsv0_arr} {fsv0_frame} {fsv1_arr} {fsv1_frame} {fsv_desc} {ssv_desc} {ssv_len_check}.',
+        '',
+        '(* IndexHierarchy.values_at_depth refresh condition; IndexHierarchyGO.append / extend set _recache *)',
+        f'Definition code_cache_params : cache_params := mk_cache_params {vad_refresh} {app_flag} {ext_flag}.',
         '',
         '(* effective default sort kind reaching np.argsort for every public sort method *)',
         'Definition sort_kind_defaults : list (string * pv) :=',
@@ -511,10 +540,11 @@ class KeyFn:
         self.kf, self.out, self.axis0, self.mangle = kf, out, axis0, mangle
         self.returned = None
         self.calls = 0
+        self.reader = None          # how the key function reads the container it is given (default: items_of)
 
     def __call__(self, obj):
         self.calls += 1
-        keys = [tuple(self.kf(t)) for t in items_of(obj, self.axis0)]
+        keys = [tuple(self.kf(t)) for t in (self.reader or items_of)(obj, self.axis0)]
         r = build_keyres(keys, self.out, axis0=self.axis0)
         if self.mangle is not None:
             r = self.mangle(r)
@@ -743,7 +773,9 @@ def keyres_of(kfn, items, axis0=False):
     return cfs_lit(r, axis0=axis0)
 
 
-def frame_sort_values_case(ctx, rng, f, cols, ilabels, clabels, idepth, cdepth, layout, axis, sel, single, asc, kfspec, stratum, mangle=None, mangle_name=None):
+def frame_sort_values_case(ctx, rng, f, cols, ilabels, clabels, idepth, cdepth, layout, axis, sel, single, asc, kfspec, stratum, mangle=None, mangle_name=None,
+                           recv=None, holder=None):
+    # f: the frame the literals are printed from; recv (optional): callable performing the sort on another receiver holding the same content
     nrows, ncols = f.shape
     if axis == 1:
         label = clabels[sel[0]] if single else [clabels[j] for j in sel]
@@ -765,7 +797,12 @@ def frame_sort_values_case(ctx, rng, f, cols, ilabels, clabels, idepth, cdepth, 
         keys_lit = vecs_lit(keyvecs_py)
     else:
         keys_lit = default_keys
-    obs, _ = run_obs(lambda: f.sort_values(label, ascending=asc, axis=axis, key=kfn), lit.oframe)
+    if recv is None:
+        obs, out = run_obs(lambda: f.sort_values(label, ascending=asc, axis=axis, key=kfn), lit.oframe)
+    else:
+        obs, out = run_obs(lambda: recv(label, asc, axis, kfn), lit.oframe)
+    if holder is not None:
+        holder['obs'], holder['out'] = obs, out
     keyres = keyres_of(kfn, items, axis0=(axis == 0))
     tags = {'op': 'Frame.sort_values', 'axis': axis}
     desc = {'call': f'frame.sort_values({label!r}, ascending={asc}, axis={axis}, key={kfspec and kfspec[0] + "->" + kfspec[2]}{"/" + mangle_name if mangle_name else ""})',
@@ -1178,12 +1215,223 @@ def long_cases(ctx):
             yield frame_sort_values_case(ctx, rng, f, cols, il, cl, 1, 1, layout, 1, sel, len(sel) == 1, asc, None, 'api:long.frame.sort_values')
 
 
+# --------------------------------------------------------------------------- grow-only receivers
+def _items_via_depth(obj, axis0=False):
+    # key functions that read a hierarchical index through values_at_depth (the path sort_index_for_order itself uses)
+    d = obj.depth
+    vecs = [pyvals(obj.values_at_depth(k)) for k in range(d)]
+    return [tuple(v[i] for v in vecs) for i in range(len(vecs[0]))] if vecs and len(vecs[0]) else []
+
+
+def _materialise(ix, how):
+    if how == 'values':
+        ix.values
+    elif how == 'depth' and getattr(ix, 'depth', 1) > 1:
+        ix.values_at_depth(0)
+    elif how == 'display':
+        repr(ix)
+    elif how == 'len':
+        len(ix)
+
+
+def _fresh_label(depth, tag):
+    # a label that is a valid append to any tree-ordered index: a brand-new outer label
+    return tag if depth == 1 else (tag,) + (0,) * (depth - 1)
+
+
+def _snap(fn, printer):
+    try:
+        return printer(fn())
+    except Exception as e:  # noqa
+        return f'<{type(e).__name__}: {str(e)[:80]}>'
+
+
+def go_frame_case(ctx, rng):
+    import static_frame as sf
+    op = rng.choice(('sort_columns', 'sort_columns', 'sort_index', 'sort_values1', 'sort_values0'))
+    cdepth = rng.choice((1, 2, 2, 3))
+    idepth = rng.choice((1, 1, 2))
+    nrows = rng.randint(1, 4)
+    n0 = rng.randint(1, 3)
+    nadd = rng.randint(1, 2)
+    clabels_all = pick_index(rng, n0 + nadd, cdepth)
+    if len(clabels_all) < 2:
+        return None
+    n0 = max(1, min(n0, len(clabels_all) - 1))
+    ilabels = pick_index(rng, nrows, idepth)
+    nrows = len(ilabels)
+    ncols = len(clabels_all)
+    kinds = gen_kinds(rng, ncols, comparable=(op == 'sort_values0'))
+    cols = gen_cols(rng, kinds, nrows)
+    name = rng.choice((None, 'G'))
+    lay0 = rng.choice(list(zoo.layouts_for([c.dtype for c in cols[:n0]])))
+    g = zoo.frame_from_columns(cols[:n0], lay0, index=mk_index(ilabels, idepth), columns=mk_index(clabels_all[:n0], cdepth), name=name, cls=sf.FrameGO)
+    how = rng.choice(('none', 'values', 'depth', 'display', 'len'))
+    _materialise(g.columns, how)
+    grow = 'setitem'
+    if cdepth == 1 and rng.random() < 0.4:
+        grow = 'extend'
+        g.extend(zoo.frame_from_columns(cols[n0:], tuple((1, False) for _ in cols[n0:]), index=mk_index(ilabels, idepth), columns=mk_index(clabels_all[n0:], 1)))
+    else:
+        for j in range(n0, ncols):
+            g[clabels_all[j]] = cols[j]
+    # the same content built independently as a static Frame: the specification's input
+    lay_all = tuple((1, False) for _ in cols)
+    cur = zoo.frame_from_columns(cols, lay_all, index=mk_index(ilabels, idepth), columns=mk_index(clabels_all, cdepth), name=name)
+    asc = rng.random() < 0.5
+    tags = {'op': f'FrameGO.{op}', 'go': True}
+    hist = f'FrameGO({n0} cols, columns depth {cdepth}); materialise={how}; {grow} {ncols - n0} column(s); {op} as first read'
+    if op in ('sort_columns', 'sort_index'):
+        labels, depth = (clabels_all, cdepth) if op == 'sort_columns' else (ilabels, idepth)
+        kfn, kfspec, keyvecs, items = index_sort_pieces(rng, labels, depth, p_key=0.4)
+        if kfn is not None and depth > 1 and rng.random() < 0.5:
+            kfn.reader = _items_via_depth
+        obs, r = run_obs(lambda: getattr(g, op)(ascending=asc, key=kfn), lit.oframe)
+        keyres = keyres_of(kfn, items)
+        axis = 1 if op == 'sort_index' else 0
+        if one_col_2d(kfspec, keyvecs):
+            tags['finding'] = 'C12-key-2d-one-column'
+        elif kfspec is not None:
+            hier_tag(tags, depth, labels, keyvecs, asc)
+        mfun = 'M_frame_sort_index' if op == 'sort_index' else 'M_frame_sort_columns'
+        keys_lit = vecs_lit(keyvecs) if kfspec is not None else f'(index_keys {depth}%nat {lit.vlist(labels)})'
+        m = m_unless_2d_garbage(f'oframe_res_eqb ({mfun} {P} {sframe_lit(cur, idepth, cdepth)} {opt(keyres)} {lit.b(asc)}) {obs}', kfspec, keyvecs, depth, len(labels))
+        sterm = f'oframe_res_eqb (Ok (S_frame_sort {axis} {lit.oframe(cur)} {keys_lit} {lit.b(asc)})) {obs}'
+        desc = {'history': hist, 'call': f'g.{op}(ascending={asc}, key={kfspec and kfspec[0] + "->" + kfspec[2]})', 'current_content': lit.oframe(cur), 'observed': obs}
+        case = Case('api:go-sort', desc, m=m, s=sterm, tags=tags, nontrivial=True)
+    else:
+        axis = 1 if op == 'sort_values1' else 0
+        other = ncols if axis == 1 else nrows
+        k = rng.randint(1, min(2, other))
+        sel = rng.sample(range(other), k)
+        if axis == 1 and rng.random() < 0.7 and (ncols - 1) not in sel:
+            sel[0] = ncols - 1                  # sort by a column added after the materialisation
+        single = k == 1 and rng.random() < 0.5
+        holder = {}
+
+        def recv_call(label, asc_, axis_, kfn_):
+            return g.sort_values(label, ascending=asc_, axis=axis_, key=kfn_)
+        case = frame_sort_values_case(ctx, rng, cur, cols, ilabels, clabels_all, idepth, cdepth, lay_all, axis, sel, single, asc, None, 'api:go-sort',
+                                      recv=recv_call, holder=holder)
+        case.desc['history'] = hist
+        case.tags.update({'op': f'FrameGO.{op}', 'go': True})
+        case.key = None
+        r = holder.get('out')
+        obs = holder.get('obs')
+    ctx.count(f'go:frame.{op}', f'go:materialise:{how}', f'go:grow:{grow}', f'go:cdepth{cdepth}')
+    # the result and the input must not share mutable structure: grow one, re-snapshot the other
+    if not isinstance(r, Exception) and r is not None:
+        x_label, y_label = _fresh_label(cdepth, 'zx'), _fresh_label(cdepth, 'zy')
+        fill = np.arange(nrows)
+        try:
+            g[x_label] = fill
+            again = _snap(lambda: r, lit.oframe)
+            if f'(Ok {again})' != obs:
+                case.py_fail = f'the sorted result changed after the INPUT was grown: {again[:200]}'
+            else:
+                cur2 = zoo.frame_from_columns(cols + [fill], lay_all + ((1, False),), index=mk_index(ilabels, idepth),
+                                              columns=mk_index(list(clabels_all) + [x_label], cdepth), name=name)
+                if isinstance(r, sf.FrameGO):
+                    r[y_label] = fill
+                got = _snap(lambda: g, lit.oframe)
+                if got != lit.oframe(cur2):
+                    case.py_fail = f'the input changed after the RESULT was grown (or lost content): {got[:200]}'
+        except Exception as e:  # noqa
+            case.py_fail = f'growing after the sort raised {type(e).__name__}: {str(e)[:120]}'
+    if case.key is None:
+        import json as _json
+        case.key = _json.dumps(case.desc, sort_keys=True, default=str)
+    return case
+
+
+def go_index_case(ctx, rng):
+    import static_frame as sf
+    depth = rng.choice((1, 2, 2, 3))
+    n0 = rng.randint(1, 4)
+    nadd = rng.randint(1, 3)
+    labels_all = pick_index(rng, n0 + nadd, depth)
+    if len(labels_all) < 2:
+        return None
+    n0 = max(1, min(n0, len(labels_all) - 1))
+    cls = sf.IndexGO if depth == 1 else sf.IndexHierarchyGO
+    ix = cls(labels_all[:n0]) if depth == 1 else cls.from_labels(labels_all[:n0])
+    how = rng.choice(('none', 'values', 'depth', 'display'))
+    _materialise(ix, how)
+    grow = rng.choice(('append', 'extend'))
+    if depth > 1 and {l[0] for l in labels_all[n0:]} & {l[0] for l in labels_all[:n0]}:
+        grow = 'append'     # IndexHierarchyGO.extend takes whole new outer groups only (growing an existing group is append's job)
+    if grow == 'append' or len(labels_all) - n0 < 1:
+        for l in labels_all[n0:]:
+            ix.append(l)
+    else:
+        ix.extend(mk_index(labels_all[n0:], depth))
+    read = rng.choice(('sort', 'sort', 'values_at_depth')) if depth > 1 else 'sort'
+    if read == 'values_at_depth':
+        # kernel: the cache model itself; the private state is read WITHOUT touching the cache
+        table = None if ix._blocks is None else [tuple(r) for r in ix._blocks.values.tolist()]
+        st = f'(mk_ih_state {lit.vlist(labels_all)} {opt(lit.vlist(table)) if table is not None else "None"} {lit.b(bool(ix._recache))})'
+        d = rng.randrange(depth)
+        obs = _snap(lambda: ix.values_at_depth(d), lambda a: lit.vlist(pyvals(a)))
+        ctx.count('go:ih.values_at_depth', f'go:materialise:{how}', f'go:grow:{grow}')
+        if obs.startswith('<'):
+            return Case('kernel:ih-cache', {'history': f'IndexHierarchyGO({n0}); materialise={how}; {grow}; values_at_depth({d})', 'observed': obs}, py_fail=f'values_at_depth raised {obs}', tags={'go': True})
+        return Case('kernel:ih-cache', {'history': f'IndexHierarchyGO({n0} labels); materialise={how}; {grow} {len(labels_all) - n0}; values_at_depth({d}) as first read',
+                                        'labels': [repr(l) for l in labels_all], 'observed': obs},
+                    m=f'vlist_eqb (snd (ih_values_at_depth code_cache_params {st} {d}%nat)) {obs}',
+                    s=f'vlist_eqb (depth_vec {lit.vlist(labels_all)} {d}%nat) {obs}', tags={'op': 'values_at_depth', 'go': True})
+    asc = rng.random() < 0.5
+    kfn, kfspec, keyvecs, items = index_sort_pieces(rng, labels_all, depth, p_key=0.4)
+    if kfn is not None and depth > 1 and rng.random() < 0.5:
+        kfn.reader = _items_via_depth
+    tags = {'op': f'{cls.__name__}.sort', 'go': True}
+    if one_col_2d(kfspec, keyvecs):
+        tags['finding'] = 'C12-key-2d-one-column'
+    elif kfspec is not None:
+        hier_tag(tags, depth, labels_all, keyvecs, asc)
+    printer = lambda r: lit.vlist(lit.labels(r))
+    obs, r = run_obs(lambda: ix.sort(ascending=asc, key=kfn), printer)
+    keyres = keyres_of(kfn, items)
+    keys_lit = vecs_lit(keyvecs) if kfspec is not None else f'(index_keys {depth}%nat {lit.vlist(labels_all)})'
+    py_fail = None
+    if not isinstance(r, Exception):
+        try:
+            ix.append(_fresh_label(depth, 'zx'))
+            again = _snap(lambda: r, printer)
+            if f'(Ok {again})' != obs:
+                py_fail = f'the sorted index changed after the INPUT was grown: {again[:200]}'
+            else:
+                r.append(_fresh_label(depth, 'zy'))
+                got = _snap(lambda: ix, printer)
+                want = lit.vlist(list(labels_all) + [_fresh_label(depth, 'zx')])
+                if got != want:
+                    py_fail = f'the input changed after the RESULT was grown: {got[:200]}'
+        except Exception as e:  # noqa
+            py_fail = f'growing after the sort raised {type(e).__name__}: {str(e)[:120]}'
+    ctx.count(f'go:{cls.__name__}.sort', f'go:materialise:{how}', f'go:grow:{grow}')
+    return Case('api:go-sort',
+                {'history': f'{cls.__name__}({n0} labels); materialise={how}; {grow} {len(labels_all) - n0}; sort as first read',
+                 'call': f'ix.sort(ascending={asc}, key={kfspec and kfspec[0] + "->" + kfspec[2]})', 'labels': [repr(l) for l in labels_all], 'observed': obs},
+                m=m_unless_2d_garbage(f'labels_res_eqb (M_index_sort {P} {depth}%nat {lit.vlist(labels_all)} {opt(keyres)} {lit.b(asc)}) {obs}', kfspec, keyvecs, depth, len(labels_all)),
+                s=f'labels_res_eqb (Ok (S_index_sort {lit.vlist(labels_all)} {keys_lit} {lit.b(asc)})) {obs}',
+                py_fail=py_fail, tags=tags)
+
+
+def go_cases(ctx):
+    # grow-only receivers: [materialise] -> grow -> sort as the FIRST read; then grow input / result and re-snapshot the other
+    rng = ctx.rng
+    for _ in range(ctx.n(160, 2500)):
+        c = go_frame_case(ctx, rng) if rng.random() < 0.65 else go_index_case(ctx, rng)
+        if c is not None:
+            yield c
+
+
 def cases(ctx):
     yield from witness_cases(ctx)
     yield from oracle_cases(ctx)
     yield from sifo_cases(ctx)
     yield from layout_cases(ctx)
     yield from long_cases(ctx)
+    yield from go_cases(ctx)
     yield from series_cases(ctx)
     yield from frame_values_cases(ctx)
     yield from frame_index_cases(ctx)
